@@ -161,26 +161,33 @@ def run_worker(binary, pkgdir, test, shard, nshards, tier, seed, outdir, budget,
 
 
 def race_reports(log):
-    """Extract (fingerprint, detail) pairs from 'WARNING: DATA RACE' blocks of a worker log."""
-    out, seen = [], set()
+    """Extract (fingerprint, detail) pairs from 'WARNING: DATA RACE' blocks of a worker log, and the number of
+    reports that are about harness / shim state. A report is classified by its two access sites (for each of the two
+    stacks, the first frame that lies in the repository): it counts against the code under test only when both sites
+    are product code; a report with a site in the harness or the shims is a harness matter and is only counted."""
+    out, seen, harness = [], set(), 0
     try:
         text = open(log, errors="replace").read()
     except Exception:
-        return out
+        return out, harness
+    is_harness = lambda f: "verifshim" in f or re.search(r"/\w+\.\(?\*?(c\d\d|TestVerif|vdb\b|newVDB)", f) is not None
     for block in text.split("WARNING: DATA RACE")[1:]:
         block = block.split("==================")[0]
-        funcs = re.findall(r"^  ([\w./()*\[\]-]+)\(\)\s*$", block, re.M)
-        own = [f for f in funcs if "sync_gateway" in f and "verifshim" not in f
-               and not re.search(r"/\w+\.\(?\*?(c\d\d|TestVerif)", f)][:2]
-        if not own:
-            # both access sites lie in harness / shim code: a harness defect, not a finding about the code under test
+        stacks = re.split(r"\n\n", block)
+        sites = []
+        for st in stacks[:2]:
+            funcs = re.findall(r"^  ([\w./()*\[\]-]+)\(\)\s*$", st, re.M)
+            own = [f for f in funcs if "sync_gateway" in f]
+            sites.append(own[0] if own else None)
+        if len(sites) < 2 or any(x is None or is_harness(x) for x in sites):
+            harness += 1
             continue
-        fp = "+".join(f.split("/")[-1] for f in own)
+        fp = "+".join(sorted(f.split("/")[-1] for f in sites))
         if fp in seen:
             continue
         seen.add(fp)
         out.append((fp, "WARNING: DATA RACE" + block[:2500]))
-    return out
+    return out, harness
 
 
 def run_part(part, binary, checks, tier, seed, rundir, idx, replay=None, shards_override=None, budget_override=None):
@@ -203,8 +210,8 @@ def run_part(part, binary, checks, tier, seed, rundir, idx, replay=None, shards_
         if vcfg.get("race"):
             # data races reported by the Go race detector in the free-running pass become violations; the test binary
             # exits non-zero because of them, which is not an engine error
-            races = race_reports(log)
-            if races and os.path.exists(rp):
+            races, harness_races = race_reports(log)
+            if (races or harness_races) and os.path.exists(rp):
                 rep = json.load(open(rp))
                 rep["violations"] = rep.get("violations") or []
                 prop = rep.get("property", "")
@@ -212,6 +219,7 @@ def run_part(part, binary, checks, tier, seed, rundir, idx, replay=None, shards_
                     rep["violations"].append({"fingerprint": "%s/data-race/%s" % (prop, fp), "detail": detail, "replay": None})
                 rep["counters"] = rep.get("counters") or {}
                 rep["counters"]["race_reports"] = len(races)
+                rep["counters"]["race_reports_about_harness_state_ignored"] = harness_races
                 reports.append(rep)
                 continue
         if rc != 0 or not os.path.exists(rp):
